@@ -33,6 +33,14 @@ Theorem list_backups_enumerates :
 Proof. exact (conj list_backups_enum powers_cover). Qed.
 Print Assumptions list_backups_enumerates.
 
+(* sparse_super2: the iterator yields the recorded backup groups that are not 0, each once and in order
+   (all of them: one recorded group is not skipped when the other slot is empty), then the group count *)
+Theorem list_backups_sparse_super2 : forall b0 b1 gdc n,
+  list_backups_ss2_n (3 + n) b0 b1 gdc 1 =
+  firstn 3 ((if b0 =? 0 then [] else [b0]) ++ (if b1 =? 0 then [] else [b1]) ++ [gdc; gdc; gdc]) ++ repeat gdc n.
+Proof. exact ss2_enum_lemma. Qed.
+Print Assumptions list_backups_sparse_super2.
+
 (* meta_bg: the location from which descriptor block i is read (ext2fs_descriptor_block_loc2) is the
    location where the writer puts it (ext2fs_super_and_bgd_loc2): in the first group of the meta group
    when the primary superblock is in use, in the second when a backup superblock is *)
